@@ -192,7 +192,11 @@ pub fn requests(k: &Kind) -> Vec<Vec<String>> {
     let mut short = out[0].clone(); short.pop(); out.push(short);
     let mut long = out[0].clone(); long.push(sval("extra")); out.push(long);
     out.push(vec![]);
+    // a number and a boolean, each followed by the string spelled the same way (different requests)
     let mut ints = out[0].clone(); ints[0] = "i:1".to_string(); out.push(ints);
+    let mut ints_s = out[0].clone(); ints_s[0] = sval("1"); out.push(ints_s);
+    let mut bools = out[0].clone(); bools[0] = "b:true".to_string(); out.push(bools);
+    let mut bools_s = out[0].clone(); bools_s[0] = sval("true"); out.push(bools_s);
     out
 }
 
@@ -211,7 +215,9 @@ pub fn lines_of(pk: &str, rules: &[Vec<String>], g: &[(String, usize)], links: &
 }
 
 pub fn gen_links(rng: &mut Rng, k: &Kind) -> Vec<Vec<Vec<String>>> {
-    k.links.iter().map(|u| { let n = rng.below(5); (0..n).map(|_| rng.pick(u).clone()).collect() }).collect()
+    // now and then a grouping rule carries one field more than its definition has places (the extra field is not part of the
+    // link; for a two-place definition it must not be taken for a domain)
+    k.links.iter().map(|u| { let n = rng.below(5); (0..n).map(|_| { let mut l = rng.pick(u).clone(); if rng.chance(1, 8) { l.push(rng.pick(&["d1", "x", ""]).to_string()); } l }).collect() }).collect()
 }
 
 fn tally(rec: &mut Recorder, out: &str) {
@@ -232,7 +238,11 @@ pub fn run(rec: &mut Recorder, w: &mut World, tier: &str, seed: u64) {
         for (ename, eff) in EFFECTS.iter() {
             for it in 0..per {
                 let with_eft = *ename != "allow-override" || rng.chance(1, 3);
-                let m = model_of(k, eff, with_eft, "", false);
+                // every fourth configuration is asked through enforce_with_context("2") on a copy of the sections under
+                // r2/p2/e2/m2 holding the rules (the reference semantics are the same)
+                let ctx = it % 4 == 3 && k.name != "eval";
+                let mut m = model_of(k, eff, with_eft, "", false);
+                if ctx { let b2 = model_of(k, eff, with_eft, "2", rng.chance(1, 2)); m.r.extend(b2.r); m.p.extend(b2.p); m.e.extend(b2.e); m.m.extend(b2.m); rec.count("asked-through:enforce_with_context"); }
                 let n = match rng.below(10) { 0 => 0, 1..=3 => 1, 4..=6 => 2, 7 | 8 => 3, _ => 4 + rng.below(27) };
                 let mut rules: Vec<Vec<String>> = vec![];
                 for _ in 0..n { let r = gen_rule(&mut rng, k, with_eft); if !rules.contains(&r) { rules.push(r); } }
@@ -240,10 +250,10 @@ pub fn run(rec: &mut Recorder, w: &mut World, tier: &str, seed: u64) {
                 if rng.chance(1, 10) && !rules.is_empty() { let i = rng.below(rules.len()); if rng.chance(1, 2) { rules[i].pop(); } else { rules[i].push("allow".to_string()); } rec.count("policy:malformed-rule"); }
                 let links = gen_links(&mut rng, k);
                 rec.begin();
-                let lines = lines_of("p", &rules, &k.g, &links);
+                let lines = lines_of(if ctx { "p2" } else { "p" }, &rules, &k.g, &links);
                 let r0 = new_enforcer(rec, w, &m, "memory", &lines, "", false);
                 if r0 != "ok" { rec.count("new:failed"); continue; }
-                let out = rec.exec(w, &format!("e.enfs\t{}", reqf));
+                let out = rec.exec(w, &if ctx { format!("e.enfcs\t2\t{}", reqf) } else { format!("e.enfs\t{}", reqf) });
                 tally(rec, &out);
                 if out.contains('p') { rec.fail("enforce-panicked", format!("kind {} effect {}: a request made enforce panic: {}", k.name, ename, out)); }
                 rec.count(&format!("kind:{}", k.name));
